@@ -231,6 +231,10 @@ class LoopInterp(Interp):
                 v = ArrV("%s.diag" % a0.name)
                 v.view = ("diag", a0.name)
                 return v
+            if name in ("column_mut", "column") and len(args) == 2:
+                v = ArrV("%s.col[%s]" % (a0.name, idx_str(args[1])))
+                v.view = (a0.name, idx_str(args[1]))
+                return v
             if name in ("to_owned", "clone", "view", "view_mut", "column", "row"):
                 return ArrV("%s.%s" % (a0.name, name)) if name in ("column", "row") else a0
             if name in ("iter", "into_iter") and len(args) == 1 and (a0.view is None or a0.view[0] == "diag"):
@@ -343,6 +347,8 @@ class LoopInterp(Interp):
         self.unsupported("iterator method %s" % name, e)
 
     def call_body(self, body, args, e=None):
+        if self.depth > 0 and body.get("path", "").startswith("linalg::") and body.get("name") == "jacobi_eigenvalue":
+            return Tup([ArrV("EIGENVALUES"), ArrV("EIGENVECTORS")])      # verified separately (loops|jacobi|*)
         # a call of another verified routine of the module (solve) is kept as a summary: `solve(b)`
         if self.depth > 0 and body.get("path", "").startswith("linalg::") and body.get("name") == "solve" and len(args) == 2 \
                 and isinstance(unref(args[1]), ArrV):
@@ -881,6 +887,24 @@ def run_loops(chk, F):
             chk.count("loop-body update statements checked", 1)
         except Unsupported as ex:
             chk.undecide("loops|norm", "unsupported: %s" % ex, body_loc(F, body))
+    # ------------------------------------------------------------------ smallest_ev
+    body = get("linalg::smallest_ev")
+    if body is not None:
+        try:
+            ups, ev, paths = updates_of(F, body, lambda: [ArrV("A")])
+            vals = [unref(pp["value"]) for pp in paths]
+            ok = len(vals) == 1 and isinstance(vals[0], Tup) and len(vals[0].vs) == 2
+            found = repr(vals[0])[:160] if vals else ""
+            if ok:
+                lam, vec = unref(vals[0].vs[0]), unref(vals[0].vs[1])
+                ok = isinstance(lam, Sc) and equal(lam.v, A("EIGENVALUES", "0")) and isinstance(vec, ArrV) and \
+                    (vec.view == ("EIGENVECTORS", "0") or vec.name in ("EIGENVECTORS.col[0]",))
+                found = "(%s, %s)" % (lam.v.show() if isinstance(lam, Sc) else lam, vec)
+            chk.ob("loops|smallest-ev", ok, "smallest_ev returns the first (smallest, the eigenvalues are ascending) eigenvalue together with "
+                   "the first eigenvector column", body_loc(F, body), found=found, required="(e[0], vecs.column(0))")
+            chk.count("loop-body update statements checked", 1)
+        except Unsupported as ex:
+            chk.undecide("loops|smallest-ev", "unsupported: %s" % ex, body_loc(F, body))
     # ------------------------------------------------------------------ Jacobi rotations
     body = get("jacobi_eigenvalue")
     if body is None:
@@ -1052,6 +1076,10 @@ def jacobi(chk, F, body):
                 sort_bad.append("eigenvalues d[%s], d[%s] exchanged on the path where %s == %s" % (inner, outer, inner, outer))
             if not b and not dsw_syms:
                 sort_bad.append("the minimum found at %s != %s is not moved to position %s" % (inner, outer, outer))
+            # every position but possibly the last gets its pass
+            olo, ohi = loops_[outer][0], loops_[outer][1]
+            if olo != "0" or ohi not in ("-1 + n", n):
+                sort_bad.append("the selection passes run over positions %s..%s" % (olo, ohi))
             # the search runs over the not yet sorted tail
             lo, hi = loops_[inner][0], loops_[inner][1]
             if lo not in ("1 + " + outer, outer) or hi != n:
